@@ -5,3 +5,5 @@ See /verif/DESIGN.md.  Engines:
   vk.e1   ast -> verification conditions for pure-integer functions (loop invariants, z3)
   vk.e3   symbolic shapes through FakeTensorMode/ShapeEnv
 """
+
+from . import z3guard  # noqa: E402,F401  (hard wall-clock guard on every z3 check of the process)
